@@ -396,11 +396,16 @@ class Model:
                 continue
             fresh_solve = pf.solvePDE(copy.deepcopy(fresh), self.terms(ref_w, fresh))
             fresh_expl = pf.solveExplicitPDE(copy.deepcopy(fresh), DT, self.rhs)
-            for name in ("solvePDE", "solveExplicitPDE", "apply_BCs"):
+            for name in ("solvePDE", "solveExplicitPDE", "apply_BCs", "apply_BCs+solvePDE"):
                 w2 = copy.deepcopy(w)
                 v = w2.slots[s]
                 try:
-                    if name == "solvePDE":
+                    if name == "apply_BCs+solvePDE":
+                        # an explicit refresh must make the variable fully fresh (ghosts *and* cached term)
+                        v.apply_BCs()
+                        got = pf.solvePDE(v, self.terms(w2, v))
+                        want = fresh_solve
+                    elif name == "solvePDE":
                         got = pf.solvePDE(v, self.terms(w2, v))
                         want = fresh_solve
                     elif name == "solveExplicitPDE":
@@ -419,7 +424,7 @@ class Model:
                 if not self._same(got._value, want._value):
                     diff = float(np.nanmax(np.abs(np.asarray(got._value) - np.asarray(want._value))))
                     vs = w.slots[s]
-                    if (getattr(vs, "_mc_cleared_by_other", False) and not vs.BCs.modified
+                    if (name != "apply_BCs+solvePDE" and getattr(vs, "_mc_cleared_by_other", False) and not vs.BCs.modified
                             and self._residual_shared(w, s, name, got)):
                         F.append({"key": "C09:shared_bc_dirty_bits_cleared_by_other:%s" % name,
                                   "msg": "%s on slot %d after history %s on %s uses boundary terms/ghosts from before the last BC edit: the variable shares its BC object with another variable whose apply_BCs/solve cleared the shared dirty bits (max diff %.3g to a fresh start)"
